@@ -476,12 +476,24 @@ template<std::size_t... K>
 void reg_misc(std::index_sequence<K...>)
 {
   (vf::registry().push_back({"c20.monomial_derivative<K=" + std::to_string(K) + ">", 6, &c20_monoder<K>, 0.3, "degree >= 2 and derivative order >= 1", {}}), ...);
+}
+template<std::size_t... K>
+void reg_lagrange(std::index_sequence<K...>)
+{
   (vf::registry().push_back({"c20.lagrange<K=" + std::to_string(K + 1) + ">", 16, &c20_lagrange<K + 1>, 0.4, "degree >= 2", {}}), ...);
+}
+
+// monomial_integral<K, P> for every derivative order P = 0..K (each a constant table: one evaluation)
+template<std::size_t K, std::size_t... P>
+void reg_monoint_row(std::index_sequence<P...>)
+{
   auto once = [](const std::function<void(const std::vector<uint64_t> &)> & f) { f({0}); };
-  (vf::registry().push_back({"c20.monomial_integral<K=" + std::to_string(K) + ",P=0>", 1, &c20_monoint<K, 0>, 1, "degree >= 2 (constant table)", once}), ...);
-  (vf::registry().push_back({"c20.monomial_integral<K=" + std::to_string(K) + ",P=1>", 1, &c20_monoint<K, 1>, 1, "degree >= 2 (constant table)", once}), ...);
-  (vf::registry().push_back({"c20.monomial_integral<K=" + std::to_string(K) + ",P=2>", 1, &c20_monoint<K, 2>, 1, "degree >= 2 (constant table)", once}), ...);
-  (vf::registry().push_back({"c20.monomial_integral<K=" + std::to_string(K) + ",P=3>", 1, &c20_monoint<K, 3>, 1, "degree >= 2 (constant table)", once}), ...);
+  (vf::registry().push_back({"c20.monomial_integral<K=" + std::to_string(K) + ",P=" + std::to_string(P) + ">", 1, &c20_monoint<K, P>, 1, "degree >= 2 (constant table)", once}), ...);
+}
+template<std::size_t... K>
+void reg_monoint(std::index_sequence<K...>)
+{
+  (reg_monoint_row<K>(std::make_index_sequence<K + 1>{}), ...);
 }
 
 template<std::size_t... K>
@@ -512,7 +524,9 @@ struct Reg
     reg_lgr(std::make_index_sequence<16>{});
 #endif
 #if VF_UNIT == 3 || VF_NUNITS < 4
-    reg_misc(std::make_index_sequence<10>{});
+    reg_misc(std::make_index_sequence<11>{});
+    reg_lagrange(std::make_index_sequence<10>{});
+    reg_monoint(std::make_index_sequence<11>{});
     vf::registry().push_back({"c20.integrate_absolute_polynomial", 16, &c20_absint, 6.0, "quadratic with two roots inside the interval", {}});
     vf::registry().push_back({"c20.binary_interval_search.exhaustive", 2, &c20_search_small, 1.0, "range with repeated values (all sorted ranges <= 8 over {0..4} x 13 queries)", &search_enumerate});
     vf::registry().push_back({"c20.binary_interval_search.medium", 260, &c20_search_long<80>, 3.0, "range of >= 3 values with repeats", {}});
